@@ -351,6 +351,18 @@ mut("N: neighbour filter written as a push loop", [(PRE, _NB_OLD, "        let m
 mut("C03 neighbour push loop keeps the NON-neighbours", [(PRE, _NB_OLD, "        let mut out = Vec::new();\n        for &i in edges_in_subgraph {\n            if !self.are_neighbours(edge_id, i) {\n                out.push(i);\n            }\n        }\n        out")], C03="C03-g")
 mut("N: loop number without the empty-set guard", [(PRE, "        if edges_in_subgraph.is_empty() {\n            return 0;\n        }\n\n        let connected_components = self.get_connected_components(edges_in_subgraph);", "        let connected_components = self.get_connected_components(edges_in_subgraph);")], C03=None, C05=None, C07=None)
 
+# ---- effects through &mut parameters of helpers evaluated from their bodies ----
+_RS_OLD = "    x_vec.iter_mut().for_each(|x| *x *= &scaling);"
+_RS_FN = "\nfn rescale_in_place<T: MomTropFloat>(parameters: &mut [T], factor: &T) {\n    for parameter in parameters.iter_mut() {\n        *parameter *= %s;\n    }\n}\n\n/// This function returns the feynman parameters"
+mut("N: rescaling moved into a helper taking &mut [T]", [
+    (SAM, _RS_OLD, "    rescale_in_place(&mut x_vec, &scaling);"),
+    (SAM, "\n/// This function returns the feynman parameters", _RS_FN % "factor"),
+], C07=None, C11=None)
+mut("C07 rescaling helper (&mut [T]) multiplies by the squared factor", [
+    (SAM, _RS_OLD, "    rescale_in_place(&mut x_vec, &scaling);"),
+    (SAM, "\n/// This function returns the feynman parameters", _RS_FN % "&(factor.ref_mul(factor))"),
+], C07="C07-c", C11="C11-c")
+
 # ---- composite properties (C01, C02): expectations derived mechanically from the owners' rows ----
 # A row that makes a selected owner clause fire must make the composite fire under the restated id; a row on which an owner must stay
 # silent must leave the composite silent (its clauses are a subset of the owners').
